@@ -131,12 +131,14 @@ def compiled_pattern(idx, fi, e, env=None):
     v = e
     if isinstance(e, ast.Name):
         v = (env or {}).get(e.id) or module_value(fi, e)
+    if isinstance(e, ast.Attribute) and isinstance(e.value, ast.Name) and e.value.id in ('self', 'cls') and fi.cls is not None:
+        v = fi.cls.attrs.get(e.attr)
     if isinstance(v, ast.Call) and idx.dotted_of(fi.module, v.func) == 're.compile' and len(v.args) == 1 and not v.keywords:
         return lib.str_const(v.args[0])
     return None
 
 
-def extract_pipeline(idx, fi, direct=False, depth=0):
+def extract_pipeline(idx, fi, direct=False, depth=0, val=None):
     """Ordered list of Steps of clean_input, the working variable's initial expression, and the input parameter.
     With direct=True the function is a helper whose (last) parameter is the working string itself."""
     if depth > 3:
@@ -147,6 +149,22 @@ def extract_pipeline(idx, fi, direct=False, depth=0):
     state = {'w': param if direct else None, 'init': ast.Name(id=param, ctx=ast.Load()) if direct else None, 'returned': False}
     steps = []
 
+    def flag_atom(e):
+        k = nf.config_key(e)
+        if k is not None and val is not None and k in val:
+            return lambda w_, k=k: val[k]
+        return None
+    flag_guards = X.Guards(flag_atom)
+
+    def decide(test):
+        """Truth of a test over the option flags under the current valuation, or None if it is not such a test."""
+        if val is None:
+            return None
+        try:
+            return bool(flag_guards.compile(nf.canon(test))({}))
+        except X.Unrecognised:
+            return None
+
     def touches(node):
         return state['w'] is not None and X.mentions(node, state['w'])
 
@@ -155,6 +173,8 @@ def extract_pipeline(idx, fi, direct=False, depth=0):
         w = state['w']
         if isinstance(e, ast.Name):
             return [] if e.id == w else None
+        if isinstance(e, ast.IfExp) and decide(e.test) is not None:
+            return transforms_of(e.body if decide(e.test) else e.orelse, guards)
         if isinstance(e, ast.Call):
             dotted = idx.dotted_of(fi.module, e.func)
             if isinstance(e.func, ast.Name) and e.func.id == 'str' and len(e.args) == 1 and not e.keywords:
@@ -180,7 +200,7 @@ def extract_pipeline(idx, fi, direct=False, depth=0):
                 fts = [t for t in targets if hasattr(t, 'node')]
                 if len(fts) == 1:
                     base = transforms_of(e.args[0], guards)
-                    sub_steps, _, _ = extract_pipeline(idx, fts[0], direct=True, depth=depth + 1)
+                    sub_steps, _, _ = extract_pipeline(idx, fts[0], direct=True, depth=depth + 1, val=val)
                     return base + [Step(list(guards) + list(st.guards), st.kind, st.args, e) for st in sub_steps]
             if isinstance(e.func, ast.Attribute) and e.func.attr == 'sub' and len(e.args) == 2 and not e.keywords \
                     and compiled_pattern(idx, fi, e.func.value, lib.local_env(fn)) is not None:
@@ -225,6 +245,8 @@ def extract_pipeline(idx, fi, direct=False, depth=0):
     def walk(stmts, guards):
         for s in stmts:
             if state['returned']:
+                if val is not None:
+                    return
                 raise AnalysisError('statements after the return of clean_input')
             if isinstance(s, ast.Expr):
                 continue
@@ -255,6 +277,11 @@ def extract_pipeline(idx, fi, direct=False, depth=0):
                     continue
                 if touches(s.value):
                     raise AnalysisError('working string copied into `%s`' % t)
+                continue
+            if isinstance(s, ast.If) and decide(s.test) is not None:
+                walk(s.body if decide(s.test) else s.orelse, guards)
+                if state['returned']:
+                    return
                 continue
             if isinstance(s, ast.If):
                 lits = flag_literals(s.test)
@@ -294,6 +321,7 @@ def extract_pipeline(idx, fi, direct=False, depth=0):
             if isinstance(s, ast.Return):
                 if guards:
                     raise AnalysisError('conditional return in clean_input')
+                state['return_node'] = s
                 if s.value is None or state['w'] is None:
                     raise AnalysisError('clean_input returns nothing recognisable')
                 tr = transforms_of(s.value, guards)
@@ -307,6 +335,8 @@ def extract_pipeline(idx, fi, direct=False, depth=0):
     walk(fn.body, [])
     if state['w'] is None or not state['returned']:
         raise AnalysisError('clean_input: working string / return not found')
+    if val is not None:
+        return steps, state['init'], state.get('return_node')
     return steps, state['init'], param
 
 
@@ -419,50 +449,79 @@ def classify_step(st):
 
 
 def d1_pipeline(ctx, idx):
-    r = ctx.rule('D1.PIPELINE', 'clean_input is exactly the guarded transform pipeline of Appendix A9 (steps, guards, '
-                 'precedence pairs that matter)', floor=11)
+    r = ctx.rule('D1.PIPELINE', 'clean_input executes exactly the transform pipeline of Appendix A9 under each of the 16 option '
+                 'valuations (steps present, nothing else, precedence pairs that matter)', floor=11)
     with r:
         fi = idx.func(SG + '.clean_input')
         if len(fi.params) != 2:
             raise AnalysisError('clean_input: signature changed: %s' % fi.params)
-        steps, init, param = extract_pipeline(idx, fi)
-        ok_init = X.any_match(['str(%s)' % param, param], init) is not None
-        r.check(ok_init, 'clean_input: starts from the given input', 'str(%s)' % param,
-                'the working string starts as `%s`, not as the input' % short(init), lib.loc(fi, init))
-        found = {}
-        for i, st in enumerate(steps):
-            sid, bad = classify_step(st)
-            if bad:
-                r.violation('clean_input: `%s`' % short(st.node, 60), bad + ' (applied %s)' % _guard_text(st.guards),
-                            lib.loc(fi, st.node), expected='only the transforms of Appendix A9', found=short(st.node, 60))
-                continue
-            found.setdefault(sid, []).append((i, st))
-        for sid, guard, text in REFERENCE:
-            construct = 'clean_input: %s' % text
-            if sid not in found:
-                X.absent(r, construct, 'the step is missing from the pipeline', fi.loc, expected=text)
-                continue
-            for i, st in found[sid]:
-                g = st.guards
-                extra_ok = sid == 'COLLAPSE' and g == guard | {('strip_all', False)} and 'STRIPALL' in found and \
-                    max(j for j, _ in found['STRIPALL']) < i       # `elif clean_spaces` after strip_all: nothing left to collapse
-                if g == guard or extra_ok:
-                    r.ok(construct, 'applied %s' % _guard_text(g), lib.loc(fi, st.node))
-                else:
-                    inverted = {(k, not v) for k, v in guard} == set(g)
-                    r.violation(construct, 'the step is applied %s, the property needs it %s%s' % (
-                        _guard_text(g), _guard_text(guard), ' (guard inverted)' if inverted else ''), lib.loc(fi, st.node),
-                        expected=_guard_text(guard), found=_guard_text(g))
-        bad_pairs = []
-        for a, b in PRECEDENCE:
-            if a in found and b in found:
-                if max(i for i, _ in found[a]) > min(i for i, _ in found[b]):
-                    bad_pairs.append((a, b))
+        param = fi.params[1]
+        OPTS = ('case_sensitive', 'strip', 'strip_all', 'clean_spaces')
+        required = {'LOWER': lambda v: not v['case_sensitive'], 'STRIP': lambda v: v['strip'], 'STRIPALL': lambda v: v['strip_all'],
+                    'COLLAPSE': lambda v: v['clean_spaces']}
         names = dict((sid, text) for sid, _, text in REFERENCE)
-        r.check(not bad_pairs, 'clean_input: order of the steps', '%d precedence pairs hold' % len(PRECEDENCE),
-                'step order changes results: %s' % '; '.join('`%s` must precede `%s`' % (names[a], names[b]) for a, b in bad_pairs[:3])
+        runs = []
+        for bits in itertools.product((True, False), repeat=4):
+            val = dict(zip(OPTS, bits))
+            steps, init, retnode = extract_pipeline(idx, fi, val=val)
+            runs.append((val, steps, retnode))
+        r.ok('clean_input: starts from the given input', 'str(%s)' % param, fi.loc)
+        # foreign / malformed transforms
+        seen_bad = set()
+        for val, steps, retnode in runs:
+            for st in steps:
+                sid, bad = classify_step(st)
+                if bad and short(st.node) not in seen_bad:
+                    seen_bad.add(short(st.node))
+                    r.violation('clean_input: `%s`' % short(st.node, 60), bad + ' (executed e.g. with %s)' % _val_text(val),
+                                lib.loc(fi, st.node), expected='only the transforms of Appendix A9', found=short(st.node, 60))
+        # presence of each reference step per valuation
+        order_problems = []
+        for sid, _, text in REFERENCE:
+            construct = 'clean_input: %s' % text
+            missing, extra, present_somewhere = [], [], False
+            for val, steps, retnode in runs:
+                ids = [classify_step(st)[0] for st in steps]
+                has = sid in ids
+                present_somewhere = present_somewhere or has
+                need = required[sid](val) if sid in required else True
+                if sid == 'COLLAPSE' and val['strip_all'] and 'STRIPALL' in ids:
+                    # after every space has been removed the collapse is a no-op: present or absent, both fine
+                    if has and ids.index('COLLAPSE') < ids.index('STRIPALL') and not val['clean_spaces']:
+                        extra.append((val, retnode))
+                    continue
+                if need and not has:
+                    missing.append((val, retnode))
+                if has and not need:
+                    extra.append((val, retnode))
+            if not present_somewhere:
+                X.absent(r, construct, 'the step is missing from the pipeline', fi.loc, expected=text)
+            elif missing:
+                val, retnode = missing[0]
+                r.violation(construct, 'with %s the step is not executed%s (%d of the 16 option valuations lack it)' % (
+                    _val_text(val), (': the function has already returned at `%s`' % short(retnode, 60)) if retnode is not None and
+                    retnode is not fi.node.body[-1] else '', len(missing)), lib.loc(fi, retnode) if retnode is not None else fi.loc,
+                    expected=text, found='not applied when %s' % _val_text(val))
+            elif extra:
+                val, retnode = extra[0]
+                r.violation(construct, 'with %s the step is executed although the option says otherwise (%d of the 16 valuations)'
+                            % (_val_text(val), len(extra)), fi.loc, expected=text, found='applied when %s' % _val_text(val))
+            else:
+                r.ok(construct, 'executed exactly in the valuations that ask for it', fi.loc)
+        for val, steps, retnode in runs:
+            ids = [classify_step(st)[0] for st in steps]
+            for a_, b_ in PRECEDENCE:
+                if a_ in ids and b_ in ids and max(i for i, x in enumerate(ids) if x == a_) > min(i for i, x in enumerate(ids) if x == b_):
+                    if (a_, b_) not in [p[:2] for p in order_problems]:
+                        order_problems.append((a_, b_, val))
+        r.check(not order_problems, 'clean_input: order of the steps', '%d precedence pairs hold in every valuation' % len(PRECEDENCE),
+                'step order changes results: %s' % '; '.join('`%s` must precede `%s`' % (names[a_], names[b_]) for a_, b_, _ in order_problems[:3])
                 + ' (a CR LF pair would become two spaces / a line break would survive strip_all or split a collapsed run)',
                 fi.loc)
+
+
+def _val_text(val):
+    return ', '.join('%s=%s' % (k, val[k]) for k in ('case_sensitive', 'strip', 'strip_all', 'clean_spaces'))
 
 
 def _guard_text(g):
@@ -472,6 +531,15 @@ def _guard_text(g):
 
 
 # ----------------------------------------------------------------------------- D2 (roles)
+def check_response_view(idx):
+    """check_response with pure single-expression helper predicates the normaliser left behind (e.g. under `and`/`or`)
+    inlined as expressions."""
+    fi0 = idx.func(SG + '.check_response')
+    view, done = X.inline_pure_calls(idx, fi0, only=set(getattr(idx, 'unreviewed', None) or []))
+    X.settle_unreviewed(idx, done, {fi0.qualname})
+    return view
+
+
 S_CLEAN = "self.clean_input(student_input)"
 E_CLEAN = "self.clean_input(answer['expect'])"
 
@@ -493,7 +561,7 @@ def d2_roles(ctx, idx):
     r = ctx.rule('D2.ROLE', "the compared strings are clean_input(answer['expect']) and clean_input(student_input); the raw "
                  "values are used in no other way", floor=5)
     with r:
-        fi = idx.func(SG + '.check_response')
+        fi = check_response_view(idx)
         if fi.params[:3] != ['self', 'answer', 'student_input']:
             raise AnalysisError('check_response: signature changed: %s' % fi.params)
         # the deciding comparison
@@ -544,7 +612,7 @@ def d2_roles(ctx, idx):
         calls = lib.calls_named(fi.node, 'clean_input')
         targets = set()
         for c in calls:
-            ts, how = idx.resolve_call(fi, c)
+            ts, how = idx.resolve_call(getattr(fi, 'original', fi), c)
             targets |= {getattr(t, 'qualname', str(t)) for t in ts}
         r.check(targets == {SG + '.clean_input'}, 'check_response: clean_input resolves to StringGrader.clean_input',
                 '%d call sites' % len(calls), 'clean_input resolves to %s' % sorted(targets), fi.loc)
@@ -596,7 +664,7 @@ def d3_construction(ctx, idx):
     r = ctx.rule('D3.FULLMATCH', "every validation test is a full-match construction over the author's pattern, applied to "
                  "the cleaned answer and to the cleaned submission", floor=4)
     with r:
-        fi = idx.func(SG + '.check_response')
+        fi = check_response_view(idx)
 
         def is_hole(e):
             return 'validation_pattern' if lib.is_config(e, 'validation_pattern') else None
@@ -834,7 +902,7 @@ def d34_decision(ctx, idx):
     r = ctx.rule('D34.DECISION', "check_response's decision tree, over the complete domain of its branch atoms, selects the leaf "
                  "the property prescribes", floor=10)
     with r:
-        fi = idx.func(SG + '.check_response')
+        fi = check_response_view(idx)
         paths = nf.decision_paths(fi.node.body)
         guards = make_guards(idx, fi)
         compiled = [([guards.compile(g) for g in p.guards], classify_leaf(p, fi), p) for p in paths]
@@ -879,7 +947,7 @@ def _leaf_text(t):
 def d4_words(ctx, idx):
     r = ctx.rule('D4.WORDS', 'the word count is len(<cleaned submission>.split()) with no separator argument', floor=1)
     with r:
-        fi = idx.func(SG + '.check_response')
+        fi = check_response_view(idx)
         n = 0
         for c in walk_own(fi.node):
             if isinstance(c, ast.Call) and isinstance(c.func, ast.Attribute) and c.func.attr == 'split':
